@@ -133,6 +133,8 @@ class SyncInterpreter(BaseInterpreter[TContext, TEvent]):
         self._is_processing: bool = False
         #: Length of the current self-raised event chain (see `send`).
         self._raise_depth: int = 0
+        # 🔗 Chain length of each queued event, parallel to `_event_queue`.
+        self._event_depths: Deque[int] = deque()
         self._after_threads: Dict[str, threading.Thread] = {}
         self._after_events: Dict[str, threading.Event] = {}
         #: Cancellation flags for pending delayed sends, released by `stop()`.
@@ -315,10 +317,11 @@ class SyncInterpreter(BaseInterpreter[TContext, TEvent]):
         self._event_queue.append(event_obj)
         # 🔁 An event sent while another one is being processed was raised by
         #    the machine itself (an action, a done/after notification): it is
-        #    a link of a potentially self-feeding chain. Events arriving from
-        #    outside never count towards the runaway bound.
-        if self._is_processing:
-            self._raise_depth += 1
+        #    one link further down the chain than the event being processed.
+        #    Events arriving from outside start a chain of their own.
+        self._event_depths.append(
+            self._raise_depth + 1 if self._is_processing else 0
+        )
         self._process_event_queue()
 
     def send_events(
@@ -334,6 +337,9 @@ class SyncInterpreter(BaseInterpreter[TContext, TEvent]):
         for event_or_type in events:
             event_obj = self._prepare_event(event_or_type)
             self._event_queue.append(event_obj)
+            self._event_depths.append(
+                self._raise_depth + 1 if self._is_processing else 0
+            )
 
         self._process_event_queue()
 
@@ -354,15 +360,23 @@ class SyncInterpreter(BaseInterpreter[TContext, TEvent]):
         #    number of events drained. Counting every drained event could not
         #    tell a runaway `raise` from a merely large batch: a
         #    `send_events()` burst longer than `max_iterations` had its tail
-        #    silently discarded. `_raise_depth` counts only events enqueued
-        #    *while another event was being processed* (see `send`), exactly
-        #    like the async engine, so outside traffic is never throttled.
+        #    silently discarded. Every queued event carries the length of
+        #    the chain of self-raised events that led to it (0 for an event
+        #    from outside, parent + 1 for one raised while another was being
+        #    processed - see `send`), exactly like the async engine. Only an
+        #    event whose OWN chain is too long is dropped: a single counter
+        #    shared by the whole drain could not tell a runaway chain from a
+        #    large batch of events that each raise one follow-up, and dropped
+        #    whichever external event happened to be next.
         limit = getattr(self.machine, "max_iterations", 1000)
         try:
             while self._event_queue:
                 current_event = self._event_queue.popleft()
+                depth = (
+                    self._event_depths.popleft() if self._event_depths else 0
+                )
 
-                if self._raise_depth > limit:
+                if depth > limit:
                     logger.error(
                         "🛑 Exceeded %d chained self-raised events on '%s'. "
                         "This usually means an action raises the event that "
@@ -371,7 +385,6 @@ class SyncInterpreter(BaseInterpreter[TContext, TEvent]):
                         limit,
                         self.id,
                     )
-                    self._raise_depth = 0
                     continue
 
                 logger.info("⚙️ Processing event: '%s'", current_event.type)
@@ -379,13 +392,13 @@ class SyncInterpreter(BaseInterpreter[TContext, TEvent]):
                 for plugin in self._plugins:
                     plugin.on_event_received(self, current_event)
 
-                depth_before = self._raise_depth
+                # 🔗 Events raised while this one is processed continue ITS
+                #    chain.
+                self._raise_depth = depth
                 self._process_event(current_event)
                 self._process_transient_transitions()
-                # ✅ A macrostep that raised nothing ends the chain.
-                if self._raise_depth == depth_before:
-                    self._raise_depth = 0
         finally:
+            self._raise_depth = 0
             self._is_processing = False
             logger.debug("🎉 Event processing cycle completed. Queue empty.")
 
